@@ -81,6 +81,17 @@ class StreamSuite(cc.ChanSuite):
                            ["push_stream", 1, True], ["read", 1, None], ["pop"], ["rup", None, None], ["pop"]],
                    "meta": {"kind": "nested-mixed"}}
         yield from self.gen_nested_clean(tier, rng)
+        # a death string fires while a stream is attached: the piece that completes it has been consumed, so it is forwarded
+        for _ in range(1500 if thorough else 300):
+            out1 = cc.rand_bytes(rng, rng.randint(0, 6), b"=> x\n")
+            out2 = cc.rand_bytes(rng, rng.randint(0, 6), b"=> x\n")
+            stream = out1 + b"PANIC" + out2 + P
+            show = rng.random() < 0.5
+            ops = [["push_prompt", {"lit": P.hex()}], ["push_stream", 0, show], ["push_death", {"lit": b"PANIC".hex()}, 1],
+                   [rng.choice(["rup", "rup", "rut"]), None, None][:2] + [None], ["pop"], ["pop"]]
+            if ops[3][0] == "rut":
+                ops[3] = ["rut", 64]
+            yield {"pieces": cc.timed(cc.rand_split(rng, stream, 5)), "accept": [], "ops": ops, "meta": {"kind": "death"}}
 
     def gen_nested_clean(self, tier, rng):
         """nested attachments with different modes where nothing is held back at the moment the mode changes"""
@@ -208,4 +219,67 @@ class StreamSuite(cc.ChanSuite):
         return None
 
 
-SUITES = [StreamSuite()]
+# ------------------------------------------------------------------ the consumers: command log events of the shells
+from props import C19 as _C19          # noqa: E402
+from props import shell_common as _sc  # noqa: E402
+import tbot.log as _tlog               # noqa: E402
+
+
+class CmdLogSuite(_C19.ExecSuite):
+    """UBootShell.exec attaches the command's log event as a stream (prompt suppressed; the crc32 work-around overrides
+    the prompt): every command's event holds exactly that command's output -- nothing of the prompt, nothing left over
+    from the command before.  Oracle only (the simulated U-Boot console of the C19 check)."""
+    name = "cmdlog"
+    model_fn = None
+
+    def run(self, case):
+        snaps = []
+        orig = _tlog.EventIO.close
+
+        def close(ev):
+            try:
+                snaps.append([list(ev.ty), ev.getvalue()])
+            except ValueError:
+                pass
+            return orig(ev)
+        _tlog.EventIO.close = close
+        try:
+            obs = _C19.run_calls(case)
+        finally:
+            _tlog.EventIO.close = orig
+        return obs + [[t for ty, t in snaps if ty[:1] == ["cmd"]]]
+
+    def obs_term(self, case, obs):
+        raise NotImplementedError
+
+    def oracle(self, case, obs):
+        if super().oracle(case, obs[:4]):
+            return []          # the calls themselves went wrong: the C19 check reports that
+        results, written, unread, siminfo, logs = obs
+        want = []
+        for call, res, info in zip(case["calls"], results, siminfo):
+            for line_hex, out_hex, _, _ in info:
+                if bytes.fromhex(line_hex) != b"echo $?":
+                    want.append(_sc.py_text(bytes.fromhex(out_hex)).replace("\r", ""))
+        got = [t.replace("\r", "") for t in logs]
+        if len(got) != len(want):
+            return [f"{len(got)} command events for {len(want)} commands"]
+        for n, (g, w) in enumerate(zip(got, want)):
+            if not w.isascii():
+                continue       # a piece boundary may split a multi-byte character (outside the property)
+            if g != w:
+                return [f"the log event of command {n} holds {g!r}; the command printed {w!r} (prompt text or left-overs of another command in the stream)"]
+        return []
+
+    def nontrivial(self, case, obs):
+        return len(case["calls"]) >= 2
+
+    def gen(self, tier, rng):
+        import itertools as _it
+        for case in _it.islice(super().gen(tier, rng), 1500 if tier == "thorough" else 300):
+            # control characters are outside the quantifier of the exec check; crc32 commands first and in the middle
+            if all(ord(c) >= 32 and ord(c) != 127 for call in case["calls"] for a in (call[1] if call[0] != "env" else [call[1], call[2] or ""]) for c in a):
+                yield case
+
+
+SUITES = [StreamSuite(), CmdLogSuite()]
